@@ -87,6 +87,15 @@ def roll_complex_negative_dim(name, c, detail):
     return name == "roll_complex" and any(d < 0 for d in c["dims"])
 
 
+def pool_len1_attr(name, c, detail):
+    """kernel_size / stride / dilation given as a 1-element sequence for a 2-D/3-D pool: only `padding` of
+    length 1 is expanded; the other attributes reach ONNX with the wrong length."""
+    if not (name.startswith("avg_pool") or name.startswith("max_pool")) or c["k"] == 1:
+        return False
+    keys = ["ks", "st"] + (["dil"] if name.startswith("max_pool") else [])
+    return any(isinstance(c[k_], list) and len(c[k_]) == 1 for k_ in keys)
+
+
 def roll_large_shift(name, c, detail):
     """shift < -d or shift > 2d: the two slices no longer partition the axis."""
     if name != "roll" or not c["shape"] or c["shape"][0] == 0:
@@ -154,6 +163,7 @@ PREDICATES = {
     "C08-cat-all-empty": cat_all_empty,
     "C08-argmax-keepdim-nodim": argmax_keepdim_nodim,
     "C08-roll-complex-negative-dim": roll_complex_negative_dim,
+    "C08-pool-len1-attr": pool_len1_attr,
     "C08-roll-large-shift": roll_large_shift,
     "C08-empty-reduction": empty_reduction,
     "C08-rank0-explicit-dim": rank0_explicit_dim,
